@@ -4,6 +4,7 @@ functions: (a) every contract the real tool infers is accepted by the model's in
 against run-time (argument non-nil, result nil?) probes, (c) the call-site bookkeeping (real triggers == model),
 (d) the statement on (real diagnostics, real panics) for programs that call contracted functions."""
 import os
+import re
 import random
 
 from . import common
@@ -68,6 +69,12 @@ def run(ctx):
             for fn, (lo, hi) in sorted(ranges.items()):
                 if fn.startswith("Bad") and not hit(lo, hi):
                     gbad.append("%s (corpus/c20/a/a.go:%d-%d%s) dereferences the result of a contracted function called with a possibly-nil argument (or of a function that must not get a contract) and is not reported" % (fn, lo, hi, tag))
+                mk = re.match(r"Known(F\d+)", fn)
+                if mk and kind is None and not hit(lo, hi):
+                    if any(k["id"] == mk.group(1) for k in ctx.known_for()):
+                        ctx.known_finding(mk.group(1), "%s (corpus/c20/a/a.go:%d-%d) dereferences the result of a function with an inferred contract that returns nil for a non-nil argument, unreported" % (fn, lo, hi))
+                    else:
+                        gbad.append("%s (corpus/c20/a/a.go:%d-%d) is not reported" % (fn, lo, hi))
                 if fn.startswith("Ok") and hit(lo, hi):
                     gbad.append("%s (corpus/c20/a/a.go:%d-%d%s) is reported: %s" % (fn, lo, hi, tag, hit(lo, hi)[0]["message"][:200]))
     finally:
@@ -75,6 +82,10 @@ def run(ctx):
     ctx.obligation("Go-source regression programs of the repaired findings F27-F29, F42-F45 (corpus/c20), as written and under the four textures (empty first line, %-file name, //line directive, CRLF): every Bad* function reported, no Ok* function reported", not gbad)
     for m in gbad[:3]:
         ctx.violation("gocorpus", "C20 fails on the real tool: %s\nreplay: bin/harness analyze -dir corpus/c20\n" % m)
+
+    # regression modules of repaired findings (marker corpora, all textures)
+    from . import markers as _mk
+    _mk.corpus_modules(ctx, "c20r", "contracts: repaired findings")
 
     # two-directional tie of the inference itself: the extracted transcription (model M10, coq/model/Infer.v) against the
     # real inferContracts on the abstract SSA form of every candidate function of the standard library, of nilaway's own
